@@ -252,7 +252,11 @@ func drawOps(t *rapid.T, maxW, maxH int, withResize bool) []op {
 			}
 		case k < 12:
 			o := op{Kind: "set", X: rapid.IntRange(-2, maxW+1).Draw(t, "x"), Y: rapid.IntRange(-2, maxH+1).Draw(t, "y"), R: drawRune(t), St: drawStyle(t)}
-			if rapid.IntRange(0, 3).Draw(t, "edge") == 0 {
+			if maxW > 256 && rapid.Bool().Draw(t, "mirror") {
+				// pairs of columns 256 apart in the same rows
+				o.X = rapid.IntRange(0, 3).Draw(t, "mx") + 256*rapid.IntRange(0, 1).Draw(t, "mside")
+				o.Y = rapid.IntRange(0, maxH-1).Draw(t, "my")
+			} else if rapid.IntRange(0, 3).Draw(t, "edge") == 0 {
 				// bias towards the right edge and the bottom row, where the
 				// wide-rune and corner special cases live
 				o.X = maxW - rapid.IntRange(0, 3).Draw(t, "fromright")
@@ -874,9 +878,9 @@ func (w *dw) appActor() {
 			}
 			w.Tty.Faults.Inc("suspend_resume")
 			// as applications do, start from a blank logical screen
-			sc.LockRegion(0, 0, 64, 64, false)
+			sc.LockRegion(0, 0, 1000, 1000, false)
 			sc.Clear()
-			w.M.Lock(0, 0, 64, 64, false)
+			w.M.Lock(0, 0, 1000, 1000, false)
 			w.M.Fill(' ', lm.Style{})
 			w.M.ResetPaint()
 			w.dirtyHist = true
@@ -1019,6 +1023,10 @@ func runDraw(t *rapid.T, prop string) {
 	if prop == "C13" {
 		cfg.W, cfg.H = rapid.IntRange(2, 10).Draw(t, "w13"), rapid.IntRange(1, 5).Draw(t, "h13")
 	}
+	if rapid.IntRange(0, 15).Draw(t, "wide") == 0 {
+		// a window wider than 256 columns (cursor addresses beyond one byte)
+		cfg.W, cfg.H = rapid.IntRange(257, 300).Draw(t, "widew"), rapid.IntRange(1, 3).Draw(t, "wideh")
+	}
 	if prop == "C09" {
 		cfg.Locale = rapid.SampledFrom([]string{"", "", "en_US.ISO8859-1", "en_US.KOI8-R", "C"}).Draw(t, "locale09")
 	}
@@ -1103,14 +1111,14 @@ func (w *dw) finalRepaint() {
 		def := w.M.Def
 		w.M = lm.New(tw, th)
 		w.M.Def = def
-		w.Scr.LockRegion(0, 0, 64, 64, false)
+		w.Scr.LockRegion(0, 0, 1000, 1000, false)
 		w.Scr.Fill('.', tcell.StyleDefault)
 		w.Scr.HideCursor()
 		w.block++
 		w.Scr.Sync()
 		// Fill before the library knew the size only covered the old
 		// buffer: fill again now that Sync has resized it.
-		w.Scr.LockRegion(0, 0, 64, 64, false)
+		w.Scr.LockRegion(0, 0, 1000, 1000, false)
 		w.Scr.Fill('.', tcell.StyleDefault)
 		w.M.Fill('.', lm.Style{})
 		w.block++
